@@ -5,6 +5,7 @@ import javagen as J
 import C01
 
 ID = "C05"
+HARNESS_ENV = {"COCA_BIN": __import__("os").path.join(vlib.ROOT, "harness", "bin", "coca")}
 MODEL_ENTRY = "C05.model"
 SPEC_ENTRY = "C05.spec"
 HARNESS_OP = "C05"
